@@ -300,3 +300,108 @@ Contract(
     properties=["C10"],
     note="the parsed base's conditionals are keyed 1..n in the order they are written",
 )
+
+
+# ---------------------------------------------------------------------------
+# C10: "text that is not entirely well formed is rejected": after the start rule has stopped, everything that is left
+# of the input must be NEWLINE* EOF, otherwise an exception is raised
+# ---------------------------------------------------------------------------
+from pyvc import lib as _lib  # noqa: E402
+
+TStream = TObj("CommonTokenStream", {"toks": TList(TInt), "pos": TInt})
+
+
+def _ts(c, v=None):
+    o = v if v is not None else c.tokens
+    return c.field(o, "toks").t, c.field(o, "pos").t
+
+
+def _rest_newlines(toks, lo, hi, name):
+    p = z3.Int("_re_p")
+    return L.Forall([p], [L.LInt.at(toks, p)], z3.Implies(z3.And(lo <= p, p < hi), L.LInt.at(toks, p) == _lib.TOKEN_NEWLINE), name)
+
+
+def _reoi_inv(s, j, pre):
+    toks, pos = _ts(s)
+    toks0, pos0 = _ts(pre)
+    return [toks == toks0, pos0 <= pos, pos < L.LInt.len(toks), _rest_newlines(toks, pos0, pos, "reoi.inv.newlines")]
+
+
+def _reoi_post(c, r):
+    toks, pos = _ts(c)
+    toks0, pos0 = _ts(c.old)
+    return [
+        toks == toks0,
+        pos0 <= pos,
+        pos == L.LInt.len(toks) - 1,  # the position reached is the EOF token: nothing but newlines was skipped, nothing is left
+        _rest_newlines(toks, pos0, pos, "end_of_input.only.newlines.left"),
+    ]
+
+
+def _reoi_raise(c):
+    toks, pos = _ts(c)
+    toks0, pos0 = _ts(c.old)
+    t = L.LInt.at(toks, pos)
+    # raised only at a token that is neither NEWLINE nor EOF, reached over newlines only
+    return z3.And(toks == toks0, pos0 <= pos, pos < L.LInt.len(toks) - 1, t != _lib.TOKEN_NEWLINE, t != _lib.TOKEN_EOF)
+
+
+Contract(
+    "parser.Wrappers:_require_end_of_input",
+    params={"tokens": TStream},
+    returns=TNone,
+    requires=lambda c: _lib.stream_wf(*_ts(c)),
+    ensures=_reoi_post,
+    raises={"Exception": _reoi_raise},
+    modifies=["tokens.pos"],
+    loops={0: LoopSpec("while tokens.LA(1) == CKBParser.NEWLINE", _reoi_inv)},
+    properties=["C10"],
+    note="normal return iff the rest of the token stream is NEWLINE* EOF (the stream ends up at EOF); otherwise an exception, "
+    "raised at the first token that is neither; token stream modelled as the list of its on-channel token types (TB-antlr)",
+)
+
+
+def _accepted(c, tree, src):
+    """what a normal return of a parse wrapper guarantees about the text `src`: it was lexed and parsed without a
+    reported error, and behind the place where the start rule stopped there are only newlines"""
+    toks = _lib.LexOf(src)
+    stop = _lib.StartPos(tree)
+    return [
+        _lib.LexClean(toks),
+        _lib.ParseClean(tree),
+        _rest_newlines(toks, stop, L.LInt.len(toks) - 1, "accepted.only.newlines.after.the.parse"),
+    ]
+
+
+Contract(
+    "parser.Wrappers:_ThrowingErrorListener.syntaxError",
+    params={"self": TOpaque, "recognizer": TOpaque, "offendingSymbol": TOpaque, "line": TInt, "column": TInt, "msg": TStr, "e": TOpaque},
+    returns=TNone,
+    ensures=lambda c, r: [z3.BoolVal(False)],
+    raises={"Exception": lambda c: z3.BoolVal(True)},
+    properties=["C10"],
+    note="the listener never returns normally: every reported error becomes an exception",
+)
+
+Contract(
+    "parser.Wrappers:_getParseTree",
+    params={"ckbs_string": TStr},
+    returns=_lib.TCtx,
+    ensures=lambda c, r: _accepted(c, r.t, c.ckbs_string.t),
+    raises={"Exception": lambda c: z3.BoolVal(True)},
+    properties=["C10"],
+    note="a tree is returned only for a text that was lexed and parsed without a reported error (both recognisers have the raising "
+    "listener as their only listener) and is followed by newlines only; relative to TB-antlr (recogniser level)",
+)
+
+Contract(
+    "parser.Wrappers:parse_formula",
+    params={"string": TStr},
+    returns=TForm,
+    ensures=lambda c, r: [r.t == _lib.sem(c.ghost["tree"].t)] + _accepted(c, c.ghost["tree"].t, c.string.t),
+    ghost_out={"tree": _lib.TCtx},
+    ghost_wit=lambda c, r: {"tree": c.tree},
+    raises={"Exception": lambda c: z3.BoolVal(True)},
+    properties=["C10"],
+    note="the formula returned is the visitor's meaning of a tree (ghost output) obtained without a reported error from the whole text",
+)
